@@ -20,5 +20,5 @@ MUTANTS = [
 BENIGN = [
     ("deepcopy-loop", F, "        cdecays = [copy.deepcopy(tree) for tree in trees_to_conjugate]", "        cdecays = []\n        for tree in trees_to_conjugate:\n            cdecays.append(copy.deepcopy(tree))"),
     ("switch-bool", F, "        self._include_ccdecays = include_ccdecays or False", "        self._include_ccdecays = bool(include_ccdecays)"),
-    ("eq-flipped", F, "                if ccp == pname:", "                if pname == ccp:"),
+    ("eq-flipped", F, "            if ccp == pname:", "            if pname == ccp:"),
 ]
